@@ -229,7 +229,7 @@ def brackets(in_file, in_encoding, **params):
                             if not 'quiet' in params:
                                 print("got empty POS", file=sys.stderr)
                             # last token was a word
-                            queue[-1].data['word'] = queue[-1].data['label']
+                            queue[-1].data['word'] = rawlabel
                             # queue[-1].data['label'] = queue[-2].data['label']
                             queue[-1].data['label'] = trees.DEFAULT_LABEL
                             queue[-1].data['edge'] = trees.DEFAULT_EDGE
@@ -327,6 +327,9 @@ def brackets(in_file, in_encoding, **params):
                     queue[-1].data['label'] = label
                     queue[-1].data['edge'] = edge
                     queue[-1].data['morph'] = trees.DEFAULT_MORPH
+                    # what was read, in case it turns out to be a word
+                    # without POS tag
+                    rawlabel = lextoken
                     state = 2
                 elif state == 3:
                     queue[-1].data['word'] = lextoken
